@@ -146,6 +146,9 @@ func newSpecProg(def *Def, env map[string]string) *specProg {
 			o := &specOpt{def: od, path: l.path + "/" + od.Name, b: od.DefB, i: od.DefI, f: od.DefF, s: od.DefS}
 			if od.Kind == Map {
 				o.m = map[string]string{}
+				for _, kv := range od.Preset {
+					o.m[kv[0]] = kv[1]
+				}
 			}
 			// environment (C12): read at definition time
 			if od.Env != "" {
